@@ -6,6 +6,7 @@ From DC Require Import Tree.LineTree Select.SelectExplainModel.
 
 Extraction "selectcount_ex.ml"
   explain_select_query
+  explain_select_query_with_inherited_with
   explain_select_with_union_query
   explain_select_with_union_query_tail
   explain_select_with_union_query_with_inherited_with
